@@ -10,6 +10,7 @@ import (
 	"syscall"
 
 	"github.com/cockroachdb/errors"
+	"github.com/cockroachdb/errors/barriers"
 	"github.com/cockroachdb/errors/domains"
 	"github.com/cockroachdb/errors/errorspb"
 	"github.com/cockroachdb/errors/extgrpc"
@@ -90,6 +91,7 @@ const (
 	LDomHandled
 	LHandleAssert
 	LAssertWrapped
+	LHandledMsgf
 	// wrappers
 	WWrap
 	WWrapf
@@ -128,6 +130,9 @@ const (
 	WUFmt
 	WUReg
 	WUOpt
+	WFmtBare
+	WUNote
+	WUFullEmpty
 	// multi-cause
 	MJoin
 	MStdJoin
@@ -287,6 +292,11 @@ func init() {
 			f, a := fmtArgs(n.S[0], n.A, hid)
 			return errors.NewAssertionErrorWithWrappedErrf(hid[0], f, a...)
 		}})
+	def(LHandledMsgf, KindInfo{Slots: "S", Name: "barriers.HandledWithMessagef", Groups: GLib | GBarrier | GFmtArgs, NHid: 1, Args: true, Weight: 2,
+		build: func(n *Node, _, hid []error) error {
+			f, a := fmtArgs(n.S[0], n.A, hid)
+			return barriers.HandledWithMessagef(hid[0], f, a...)
+		}})
 	// ---------------- wrappers
 	def(WWrap, KindInfo{Slots: "S", Name: "errors.Wrap", Arity: Wrap, Groups: GLib | GStack, Weight: 10,
 		build: func(n *Node, k, _ []error) error { return mkWrap(k[0], n.S[0].V) }})
@@ -421,9 +431,36 @@ func init() {
 		build: func(n *Node, k, _ []error) error { return &UWrapReg{Msg: n.S[0].V, Code: n.N[0], Cause: k[0]} }})
 	def(WUOpt, KindInfo{Slots: "U", Name: "uWrapOpt", Arity: Wrap, Groups: GUser, Weight: 2,
 		build: func(n *Node, k, _ []error) error { return &UWrapOpt{Msg: n.S[0].V, Cause: k[0]} }})
+	def(WFmtBare, KindInfo{Name: "fmt.Errorf(%w)", Arity: Wrap, Groups: GStd, Weight: 2,
+		build: func(n *Node, k, _ []error) error { return fmt.Errorf("%w", k[0]) }})
+	def(WUNote, KindInfo{Slots: "U", Name: "uWrapNote", Arity: Wrap, Groups: GUser, NInts: []int{2}, Weight: 2,
+		build: func(n *Node, k, _ []error) error {
+			if n.N[0] == 0 {
+				return &UWrapNote{Cause: k[0]}
+			}
+			return &UWrapNote{Note: n.S[0].V, Cause: k[0]}
+		}})
+	// a wrapper that overrides its cause's message with the empty string
+	// (only enabled by properties whose quantifier does not exclude empty messages)
+	def(WUFullEmpty, KindInfo{Name: "uWrapFull(empty)", Arity: Wrap, Groups: GUser, Weight: 1,
+		build: func(n *Node, k, _ []error) error { return &UWrapFull{Msg: "", Cause: k[0]} }})
 	// ---------------- multi-cause
 	def(MJoin, KindInfo{Name: "errors.Join", Arity: Multi, Groups: GLib | GMulti | GStack, NInts: []int{4}, Weight: 5,
-		build: func(n *Node, k, _ []error) error { return mkJoin(withNils(k, n.N[0])) }})
+		build: func(n *Node, k, _ []error) error {
+			// Join is handed a slice (as with errs...): the callee must
+			// neither modify it nor keep it. Afterwards the slice is reused by
+			// its owner (scribbled over).
+			args := withNils(k, n.N[0])
+			before := append([]error(nil), args...)
+			e := mkJoin(args)
+			for i := range args {
+				if !sameErr(args[i], before[i]) {
+					JoinArgMutations++
+				}
+				args[i] = errScribble
+			}
+			return e
+		}})
 	def(MStdJoin, KindInfo{Name: "goerrors.Join", Arity: Multi, Groups: GStd | GMulti, NInts: []int{4}, Weight: 3,
 		build: func(n *Node, k, _ []error) error { return goerrors.Join(withNils(k, n.N[0])...) }})
 	def(MFmt, KindInfo{Slots: "U", Name: "fmt.Errorf(%w %w)", Arity: Multi, Groups: GStd | GMulti, Weight: 3,
@@ -444,6 +481,20 @@ func init() {
 		build: func(n *Node, k, _ []error) error { return MigNew(MigBuildName, FormWrap, n.S[0].V, k[0]) }})
 	def(MUMultiReg, KindInfo{Slots: "U", Name: "uMultiReg", Arity: Multi, Groups: GUser | GMulti, Weight: 2,
 		build: func(n *Node, k, _ []error) error { return &UMultiReg{Msg: n.S[0].V, Errs: k} }})
+}
+
+// JoinArgMutations counts argument slices that errors.Join modified.
+var JoinArgMutations int
+
+var errScribble = goerrors.New("scribbled-by-the-owner-of-the-slice")
+
+func sameErr(a, b error) (eq bool) {
+	defer func() {
+		if recover() != nil {
+			eq = true // uncomparable values: cannot have been replaced by a comparable one silently
+		}
+	}()
+	return a == b
 }
 
 // withNils interleaves nil arguments at positions selected by mask.
